@@ -101,6 +101,10 @@ def source_facts():
     facts["panic_site_census_changes"] = cdiff
     facts["model_stale_warning"] = bool(cdiff)
     facts["translated_functions"] = tr["translated"]
+    facts["translated_fragments"] = tr.get("fragments", [])
+    if tr.get("fragments_not_found"):
+        # not an error: that expression is tied to the model by the correspondence check only in this run (DESIGN.md section 13)
+        facts["fragments_not_found"] = tr["fragments_not_found"]
     if tr["failed"]:
         facts["translator_failed"] = tr["failed"]
     return facts
